@@ -45,6 +45,20 @@ def _subject_eval(call, mutate):
     return out, unchanged
 
 
+def _subject_bulk(name, first, stride, count):
+    """count calls of a5.<name> on the cells first, first+stride, ... (results discarded)."""
+    import a5
+    fn = getattr(a5, name)
+    n = 0
+    for i in range(count):
+        try:
+            fn(first + i * stride)
+            n += 1
+        except Exception:  # noqa: BLE001 - an invalid id in the block is not this stage's concern
+            pass
+    return n
+
+
 class Subject:
     """A long-lived process with its own call history, forked from the (pristine) caller."""
 
@@ -64,7 +78,10 @@ class Subject:
                     if req is None:
                         break
                     try:
-                        out = ("ok", _subject_eval(*req))
+                        if req[0] == "__bulk__":
+                            out = ("ok", _subject_bulk(*req[1:]))
+                        else:
+                            out = ("ok", _subject_eval(*req))
                     except BaseException as e:  # noqa: BLE001
                         out = ("harness_exc", f"{type(e).__name__}: {e}")
                     forkoracle._send(res_w, out)
@@ -152,9 +169,9 @@ class History:
             raise Violation("argument_modified", case, observed="argument changed by the call", expected="unchanged",
                             note=f"call #{len(self.calls)} {call[0]}")
         nfaces = len({f for f in self.faces if f is not None})
-        ngeo = sum(1 for c in self.calls if c[0] in apigen.GEOMETRY)
+        ngeo = sum(1 for c in self.calls if c[0] in apigen.GEOMETRY) + sum(c[4] for c in self.calls if c[0] == "__bulk__")
         rep_after_mut = is_repeat and any(self.calls[i] == call for i in self.mutated)
-        nt = (ngeo >= 2 and nfaces >= 2) or rep_after_mut
+        nt = (ngeo >= 2 and nfaces >= 2) or rep_after_mut or ngeo >= 1000
         classes = [f"call:{call[0]}", f"depth{min(len(self.calls) // 10 * 10, 40):02d}+"]
         if nt:
             classes.append("nontrivial_history")
@@ -169,6 +186,15 @@ class History:
         self.faces.append(_face_of(call, got))
         self.calls.append(call)
         return got
+
+    def subject_bulk(self, name, first, stride, count):
+        forkoracle._send(self.subject.req_w, ("__bulk__", name, first, stride, count))
+        status, val = forkoracle._recv(self.subject.res_r)
+        if status != "ok":
+            raise HarnessError(f"subject failure: {val}")
+        self.calls.append(["__bulk__", name, first, stride, count])
+        self.faces.append(None)
+        return val
 
     def close(self):
         self.subject.close()
@@ -249,6 +275,24 @@ class A5History(RuleBasedStateMachine):
             d = min(d, 2)
         return self._cells_from(self.h.step(["cell_to_children", c, min(29, res + d)]))
 
+    @rule(c=cells, ua=st.floats(0, 1, allow_nan=False), k=st.integers(1, 3), kind=st.sampled_from(["parent", "children"]))
+    def related_out_of_order(self, c, ua, k, kind):
+        """A valid request immediately followed by an out-of-order request on a related cell (both must behave as in a
+        fresh process: the second one raises there)."""
+        res = refids.res_of(c)
+        if kind == "parent" and res >= 2:
+            a = 1 + int(ua * (res - 1))                     # 1..res-1... parent resolution
+            a = max(1, min(res, a))
+            p = refids.parent(c, a)
+            anc = refids.parent(p, max(-1, a - k))
+            self.h.step(["cell_to_parent", c, a])
+            self.h.step(["cell_to_parent", anc, a])
+        elif kind == "children" and 1 <= res <= 28:
+            b = min(29, res + k)
+            self.h.step(["cell_to_children", c, b])
+            kid = refids.children(c, b)[int(ua * (refids.nchildren(res, b) - 1))]
+            self.h.step(["cell_to_children", kid, res])
+
     @rule(call=apigen.hierarchy_calls())
     def hierarchy(self, call):
         self.h.step(call)
@@ -288,8 +332,50 @@ def stage_machine(ctx):
         _S["zyg"].close()
 
 
+def stage_long_history(ctx):
+    """Very long histories: probe calls, then 70k..300k calls on distinct cells in the same process, then the probe
+    calls again; every probe result (before and after) must equal the fresh-process value. Reaches capacity-bounded
+    caches (eviction/wrap-around), which no history of a few dozen calls can."""
+    import hypothesis
+    from hypothesis import HealthCheck, Phase, given, settings
+    _S["zyg"] = forkoracle.Zygote()
+    _S["memo"] = {}
+    _S["col"] = ctx.col
+    probes = []
+
+    @hypothesis.seed(ctx.shard_seed)
+    @settings(max_examples=50, database=None, deadline=None, phases=[Phase.generate], suppress_health_check=list(HealthCheck))
+    @given(apigen.geometry_calls(lo=2))
+    def collect(c):
+        probes.append(c)
+    collect()
+    probes = probes[10:]
+    sizes = [70000, 140000] if ctx.tier == "quick" else [70000, 140000, 300000, 600000]
+    n_bulk = sizes[ctx.shard % len(sizes)]
+    # distinct cells by enumeration: a contiguous block of res-9..12 descendants of a face (no RNG needed)
+    res = 9 + ctx.shard % 4
+    first = refids.enc(res, ctx.shard % 12, ctx.shard % 5, 0)
+    stride = 1 << (60 - 2 * res)
+    h = History(ctx.col)
+    try:
+        for c in probes:
+            h.step(c, mutate=False)
+        done = 0
+        kinds = ["cell_to_lonlat", "cell_to_boundary", "cell_to_lonlat"]
+        while done < n_bulk:
+            m = min(20000, n_bulk - done)
+            h.subject_bulk(kinds[(done // 20000) % 3], first + done * stride, stride, m)
+            done += m
+        for c in probes:
+            h.step(c, mutate=False, is_repeat=True)
+        ctx.col.count("bulk_calls_between_probe_rounds", n_bulk)
+    finally:
+        h.close()
+        _S["zyg"].close()
+
+
 def plan(tier):
-    return [Stage("machine", 16, stage_machine, cost=10)]
+    return [Stage("machine", 16, stage_machine, cost=10), Stage("long_history", 2 if tier == "quick" else 8, stage_long_history, cost=9)]
 
 
 def replay(rec, col):
@@ -301,7 +387,10 @@ def replay(rec, col):
     h = History(col)
     try:
         for i, call in enumerate(hist):
-            h.step(call, mutate=True, is_repeat=call in hist[:i])
+            if call and call[0] == "__bulk__":
+                h.subject_bulk(*call[1:])
+            else:
+                h.step(call, mutate=True, is_repeat=call in hist[:i])
     finally:
         h.close()
         if own:
